@@ -10,6 +10,7 @@
      <id> recv <lim> <hex stream>               (full receive loop)
      <id> select <lim> <hex header4>            (ops chosen for one header)
      <id> machine <sched WR..> <hex body> <hex ping header> <hex ping payload>
+     <id> ws_send <keepalive 0|1> <pattern of G/B>               (websocket sender loop: indices written)
      <id> wires <body size> <hex ping header> <hex ping payload>   (all finished schedules of length 12)
      <id> limits_server / limits_client / recvcase / routercase    (same text as the Go harness prints)
      <id> consts
@@ -181,6 +182,12 @@ let handle2 id = function
        | HsPeer (w, _, _, rl) ->
            Printf.printf "%s reply=%s attaches=%b %s\n" id (hex_of_bytes (List.concat w)) server_attaches_peer (events_text (m_recv rl (bytes_of_hex stream)))
        | HsErr _ -> Printf.printf "%s hs=fail\n" id); true
+  | ["ws_send"; ka; pattern] ->
+      (* pattern: G = serializable, B = not; prints the indices of the messages written *)
+      let pat = List.init (String.length pattern) (fun i -> pattern.[i] = 'G') in
+      let ws = m_ws_send (ka = "1") pat in
+      Printf.printf "%s sent=%s\n" id
+        (if ws = [] then "-" else String.concat "," (List.map (fun b -> match b with [z] -> string_of_int (int_of_z z) | _ -> "?") ws)); true
   | ["wires"; size; hdr; payload] ->
       let b = List.init (int_of_string size) (fun _ -> Z0) and h = bytes_of_hex hdr and p = bytes_of_hex payload in
       let seen = Hashtbl.create 16 in
